@@ -79,6 +79,10 @@ pub impl Vec<SpeedLimitPoint> {
             while self[idx_end].offset > speed_limit.offset_end {
                 idx_end -= 1;
             }
+            // Speed in force just before offset end; must be read before a start point is
+            // inserted below, because `idx_end` then designates the inserted (already lowered) point
+            // when the speed limit lies strictly inside one existing segment
+            let speed_end_old = self[idx_end].speed_limit;
 
             // If the speed starts at an offset not already in speeds
             if speed_limit.offset_start < self[idx_start].offset {
@@ -101,7 +105,7 @@ pub impl Vec<SpeedLimitPoint> {
 
             // If the old speed does not end at offset end
             if self[idx_end].offset < speed_limit.offset_end {
-                let speed_old = self[idx_end].speed_limit;
+                let speed_old = speed_end_old;
 
                 // If the speed is different, insert the old speed at offset end
                 if speed_old != min_speed(speed_old, speed_limit.speed) {
